@@ -693,6 +693,45 @@ def rule_r7(facts, col, bodies=None):
         col.ok("C07.R7", "no-thread-side-work-site", "src/mtgraph.rs", "no work() call on a spawned thread")
 
 
+def rule_r9(facts, col, rule_id="C07.R9"):
+    """run() does not panic on its way out: the runners' own code (src/graph.rs, src/mtgraph.rs - run(), the statistics it
+    formats before returning, their closures) contains no integer division / remainder and no `Duration / n` whose divisor is not
+    established non-zero.  Counters such as 'work calls of this block' ARE zero when the token was cancelled before a thread's
+    first call, so a per-call average computed there panics exactly in the cancellation case."""
+    n = 0
+    one = E("const", v=1, ty="usize")
+    for body in facts.bodies:
+        if body.file not in ("src/graph.rs", "src/mtgraph.rs"):
+            continue
+        n += 1
+        sites = []
+        for bb in sorted(body.reachable(0)):
+            t = body.term(bb)
+            if t["k"] == "assert" and t["msg"]["kind"] in ("DivisionByZero", "RemainderByZero"):
+                ce = peel(body.operand_expr(t["cond"]), through_try=False)
+                div = ce.a if (ce.k == "bin" and ce.op == "Eq") else None
+                sites.append((bb, div, "integer division"))
+            elif t["k"] == "call" and t["f"].get("name") in ("div", "div_f32", "div_f64", "rem", "div_assign") and t.get("argtys") \
+                    and "Duration" in (t["argtys"][0] if t["argtys"] else "") and len(t["args"]) == 2:
+                sites.append((bb, body.operand_expr(t["args"][1]), "Duration division"))
+        for k_, (bb, div, what) in enumerate(sites):
+            key = "%s:div#%d" % (body.q, k_)
+            pd = peel(div, through_try=False) if div is not None else None
+            while pd is not None and pd.k == "cast" and pd.a is not None:
+                pd = peel(pd.a, through_try=False)
+            if pd is not None and pd.k == "const" and isinstance(pd.v, (int, float)) and pd.v != 0:
+                col.ok(rule_id, key, body.where(bb), "constant non-zero divisor")
+            elif pd is not None and known_ge(body, bb, pd, one):
+                col.ok(rule_id, key, body.where(bb), "divisor established non-zero")
+            else:
+                col.bad(rule_id, key, body.where(bb),
+                        "%s in runner code by a value not established non-zero (%s): a count that is still 0 - a block thread "
+                        "that saw the cancelled token before its first work() call - makes run() panic instead of returning"
+                        % (what, show(pd)[:50] if pd is not None else "?"), {})
+    if n:
+        col.ok(rule_id, "scanned", "src/mtgraph.rs", "%d runner bodies scanned for panicking divisions" % n)
+
+
 def run(ctx):
     facts = ctx.facts("default")
     rb = runner_bodies(facts)
@@ -709,6 +748,8 @@ def run(ctx):
     from . import c04
     c04.rule_r10(facts, ctx, rule_id="C07.R8")       # a wait that never gives control back defeats the cancel poll
     ctx.floor("C07.R8", 4, "timed stream waits (same rule as C04.R10)")
+    rule_r9(facts, ctx)
+    ctx.floor("C07.R9", 1, "runner bodies scanned (no integer / Duration division today)")
     rule_r5(facts, ctx)
     ctx.floor("C07.R5", 1, "CancellationToken::cancel stores true")
     from .. import controls
